@@ -2,7 +2,7 @@
    Only property theorems here. Model R, every level.  These theorems depend on the standard-library
    axiom functional_extensionality_dep (states contain functions and the correspondence between the
    two runs is stated as an equality of states); no other axiom. *)
-From AJ Require Import Common.Util Run.RModel Run.RFacts Run.RProps2 Run.RFlip Props.RExample.
+From AJ Require Import Common.Util Run.RModel Run.RFacts Run.RProps2 Run.RFlip Props.RExample Run.RSchedDef Run.RSched Run.RSchedCor.
 
 (* c' = flip_cfg F c: the same tree in which the jobs of F (atomic, not critical) raise where they
    returned and return where they raised.  flip_ev F switches the outcome of their EFinish events
@@ -66,6 +66,21 @@ Print Assumptions C06_wf.
 
 (* non-vacuity: in the recorded run job 2 raises and is not critical; the switched history is
    accepted for the switched configuration *)
+(* in closed form, and without any axiom: the scheduling equations do not mention outcomes, so in a
+   tree without window or forever job every execution of the tree with the outcomes of any set F of
+   non-critical jobs switched follows the SAME schedule S, E: no job starts or ends at another instant
+   because a non-critical job raised (until a critical job raises) *)
+Theorem C06_noncritical_failures_do_not_move_jobs : forall F c S E h s,
+  wf c = true -> plainH c = true -> is_scheduleH c S E -> slackH c S E -> flippable F c ->
+  Reach 3 (flip_cfg F c) h s -> calm c E s ->
+  forall x, x < njobs c -> x <> 0 -> on_schedule (flip_cfg F c) S E s x.
+Proof. exact noncritical_failures_do_not_move_jobs. Qed.
+Print Assumptions C06_noncritical_failures_do_not_move_jobs.
+
+Theorem C06_schedule_ignores_outcomes : forall F c S E, is_scheduleH c S E <-> is_scheduleH (flip_cfg F c) S E.
+Proof. exact schedule_ignores_outcomes. Qed.
+Print Assumptions C06_schedule_ignores_outcomes.
+
 Example C06_nonvacuous :
   let F := fun j => Nat.eqb j 2 in
   flippableb F ex_cfg = true /\ In (EFinish 2 OExc) ex_hist /\
